@@ -214,6 +214,7 @@ def cases(c):
                     'nsig': int(rng.integers(0, P)), 'i': i})
     for P in (4, 8):
         out.append({'fn': 'validation', 'P': P, 'N': 40, 'directed': True})
+    out.append({'fn': 'witness-F26', 'N': 18, 'P': 8, 'NFFT': 65, 'directed': True})
     return out
 
 
@@ -238,6 +239,14 @@ def run_case(c, d):
                     c.exception('validation', exc, {'fn': fn, 'why': why})
                 else:
                     c.fail('validation:%s-rejected' % why, {'kwargs': kw}, {'fn': fn, 'why': why})
+        return
+    if d['fn'] == 'witness-F26':
+        # exactly rank-deficient data (one complex exponential at DC): the contract on eigen() judges the call
+        c.set_nontrivial(True)
+        try:
+            spectrum.ev(np.ones(d['N'], dtype=complex), d['P'], NSIG=1, NFFT=d['NFFT'])
+        except Exception as exc:
+            c.exception('eigen', exc, {'fn': 'eigen', 'method': 'ev'})
         return
     if d['fn'] == 'noisy':
         c.set_nontrivial(True)
